@@ -45,6 +45,7 @@ type Profile struct {
 	Deposits   bool    // run the deposit fast-forward fragment
 	NoFaults   bool    // never let validators miss votes (C03 scope)
 	Fragments  []string
+	Downtime   float64 // per-block probability (once per history) that a small validator stops voting for 9 blocks (downtime slash 1 %, jail; the generator unjails it later)
 	Equivocate float64 // per-block probability (once per history) that the weakest validators' double sign is reported: slashing makes share prices differ from 1
 	SubMs      float64 // <0: block times stay on whole milliseconds; otherwise about a third of the blocks get a sub-millisecond part
 }
@@ -93,6 +94,9 @@ type Gen struct {
 	Samples   []string
 	// set by fragment steps
 	equivocated bool
+	downVal     string // consensus address of the validator that is down
+	downUntil   int64
+	downDone    bool
 	ForceGap    time.Duration // gap of the block being planned
 	FastForward int           // empty blocks (1 s apart) the runner inserts after this block
 }
@@ -335,7 +339,7 @@ func (g *Gen) Plan() BlockPlan {
 		}
 	}
 	p.Txs = out
-	if !g.P.NoFaults && g.P.VoteFault > 0 {
+	if !g.P.NoFaults && (g.P.VoteFault > 0 || g.P.Downtime > 0 || g.downVal != "") {
 		p.Votes = g.votePlan()
 	}
 	return p
@@ -360,7 +364,22 @@ func (g *Gen) votePlan() func(c *Chain, v CometVal, honest []byte) VoteSpec {
 	for _, v := range g.c.Valset(g.c.Height + 1) {
 		total += v.Power
 	}
+	h := g.c.Height + 1
+	if g.P.Downtime > 0 && !g.downDone && h > 12 && g.jr.Chance(g.P.Downtime) {
+		vs := g.c.Valset(h)
+		if len(vs) >= 3 {
+			sorted := append([]CometVal{}, vs...)
+			sort.Slice(sorted, func(i, j int) bool { return sorted[i].Power < sorted[j].Power })
+			if victim := sorted[g.jr.Pick(2)]; victim.Power*4 < total {
+				g.downVal, g.downUntil, g.downDone = string(victim.Keys.ConsAdr), h+9, true
+			}
+		}
+	}
 	return func(c *Chain, v CometVal, honest []byte) VoteSpec {
+		if g.downVal == string(v.Keys.ConsAdr) && h <= g.downUntil && (faultBudget+v.Power)*3 < total {
+			faultBudget += v.Power
+			return VoteSpec{Flag: cmtproto.BlockIDFlagAbsent}
+		}
 		if g.r.Chance(g.P.VoteFault) && (faultBudget+v.Power)*3 < total {
 			faultBudget += v.Power
 			switch g.r.Pick(3) {
@@ -675,7 +694,7 @@ func (g *Gen) op(op string, v *view) []byte {
 		case 1:
 			fee = full/3 + 1
 		case 2:
-			fee = full + 7
+			fee = []int64{full + 7, full + 3_000_000, full * 2}[g.r.Pick(3)]
 		case 3:
 			if g.r.Chance(g.P.Hostile) {
 				fee = 10_000
